@@ -62,6 +62,7 @@ def one_trace(rng, tid, prop):
                 rows.append(row)
                 coefs.append(cf)
         spec["rows"], spec["coefs"] = rows, coefs
+    names = tuple(spec["names"])          # positional arguments follow the STORED order of the indeterminates
     p = rec.new(build_poly(spec))
     snames = ["q%d" % n for n in names]
     for _ in range(rng.randint(3, 7)):
